@@ -1302,34 +1302,34 @@ def generate():
         mtmeth_i, _ = [], errors.append("generated interface proxy methods (interface/mt.rs templates): %s" % e)
     try:
         macro = translate_macro_logic()
-    except TranslateError as e:
+    except (TranslateError, KeyError, IndexError, ValueError, TypeError, AttributeError) as e:
         macro, _ = [], errors.append("macro logic (entry_points.rs, override_entry_point.rs): %s" % e)
 
     try:
         mtlogic = translate_mt_logic()
-    except TranslateError as e:
+    except (TranslateError, KeyError, IndexError, ValueError, TypeError, AttributeError) as e:
         mtlogic, _ = [], errors.append("macro logic (contract/mt.rs emit_impl_contract): %s" % e)
 
     try:
         legs = translate_dispatch_leg()
-    except TranslateError as e:
+    except (TranslateError, KeyError, IndexError, ValueError, TypeError, AttributeError) as e:
         legs, _ = [], errors.append("macro logic (dispatch legs: msg_variant.rs, msg_type.rs): %s" % e)
 
     try:
         msgnew = translate_msg_new()
-    except TranslateError as e:
+    except (TranslateError, KeyError, IndexError, ValueError, TypeError, AttributeError) as e:
         msgnew, _ = [], errors.append("macro logic (message constructors: */communication/enum_msg.rs, struct_msg.rs): %s" % e)
     try:
         parsefns = translate_attr_parser()
-    except TranslateError as e:
+    except (TranslateError, KeyError, IndexError, ValueError, TypeError, AttributeError) as e:
         parsefns, _ = [], errors.append("macro logic (attribute parser: parser/attributes/mod.rs): %s" % e)
     try:
         foldfns = translate_fold()
-    except TranslateError as e:
+    except (TranslateError, KeyError, IndexError, ValueError, TypeError, AttributeError) as e:
         foldfns, _ = [], errors.append("macro logic (fold.rs StripInput): %s" % e)
     try:
         bridge = translate_bridge_logic()
-    except TranslateError as e:
+    except (TranslateError, KeyError, IndexError, ValueError, TypeError, AttributeError) as e:
         bridge, _ = [], errors.append("macro logic (bridged arms: interfaces.rs, msg_type.rs): %s" % e)
 
     def prog(fns):
